@@ -290,7 +290,7 @@ func guardStr(f func()) (pan string) {
 func init() {
 	harness.Register(&harness.Prop{
 		ID: "C08", Engine: "E2", Level: "exploration", Gen: genC08, Exec: execC08,
-		Runs:      map[string]int{"quick": 30000, "thorough": 600000},
+		Runs:      map[string]int{"quick": 60000, "thorough": 1800000},
 		Rule:      "per run one seeded pipeline (any order of up to 4 of deflate level 0-9, shuffle with element size 1-16, Fletcher-32, LZF) and one seeded payload (sizes 0,1,2,3,7,8,9,63..65,255,256,1000,4096,4097,64 KiB, thorough also 256 KiB/1 MiB; random, zero, ramp, repetitive): writer Apply then writer Remove (lossless), reader ApplyFilters on the same bytes (same container format), the stored pipeline message through the reader's parser (same description); for pipelines whose outermost filter is Fletcher-32 and chunks <= 4 KiB EVERY single byte position of the stored chunk is altered with 3 values and decoding must fail on both sides (fault enumeration per chunk); in half of the runs a filtered chunked dataset additionally goes end to end through the public API over the simulated disk with a restart; non-trivial = payload >= 2 bytes and a non-empty pipeline that encoded; distinct by (pipeline kinds in order, size class, payload class, api part)",
 		Technique: "deterministic simulation: writer/reader differential at package level, stored-chunk byte-flip enumeration, end-to-end restart through the simulated disk",
 		Assumptions: []string{"payload generation at package level is input generation (the simulation adds the stored-byte faults and the restart path)",
